@@ -21,7 +21,7 @@
  */
 extern int mpt_qunshift(MPT_STRUCT(queue) *queue, size_t len, const void *data)
 {
-	int ret;
+	ssize_t ret;
 	if ((ret = mpt_qpre(queue, len)) < 0) {
 		return ret;
 	}
